@@ -21,6 +21,7 @@ class StubEzsp:
         self.calls = []
         self.fail_at = None  # (command name, exception)
         self.is_ezsp_running = True
+        self.value_unreadable = False
 
     def _maybe(self, name):
         self.calls.append(name)
@@ -47,12 +48,14 @@ class StubEzsp:
         import bellows.types as t
 
         self._maybe("getValue")
+        if self.value_unreadable:
+            return t.EzspStatus.ERROR_INVALID_ID, b""  # the keep-alive itself succeeded; this NCP just cannot report the value
         return t.EzspStatus.SUCCESS, b"\x10"
 
 
 class Feed(Harness):
     name = "c19_feed"
-    must_reach = ("raised", "tolerated", "cleared", "clear-period", "v4")
+    must_reach = ("raised", "tolerated", "cleared", "clear-period", "v4", "value-unreadable")
     functions = ("ControllerApplication._watchdog_feed", "ControllerApplication._get_free_buffers")
 
     def run(self, ctx, L=6):
@@ -69,7 +72,8 @@ class Feed(Harness):
             at = 0
             if o and not v4:
                 at = ctx.choice("at%d" % i, 2)  # keep-alive command itself / the free-buffer read
-            outcomes.append((o, at))
+            unread = (not v4) and o == 0 and ctx.flag("unreadable%d" % i)  # free-buffer value not readable on a successful feed
+            outcomes.append((o, at, unread))
 
         async def main(loop):
             # state constructed directly: only what _watchdog_feed touches
@@ -83,8 +87,11 @@ class Feed(Harness):
             app._watchdog_failures = f0
             ref_fail = f0
             ref_cnt = c0
-            for i, (o, at) in enumerate(outcomes):
+            for i, (o, at, unread) in enumerate(outcomes):
                 ez.calls.clear()
+                ez.value_unreadable = unread
+                if unread:
+                    ctx.label("value-unreadable")
                 exc = None
                 if o == 1:
                     exc = asyncio.TimeoutError()
@@ -165,6 +172,7 @@ def main(tier):
         "EZSP object replaced by a command-level stub (nop / read_counters / read_and_clear_counters / getValue)",
         "application object allocated without running zigpy's constructor; only state.counters, _ezsp and the two watchdog counters are set",
         "the tolerated maximum and the clear period are the module's configured constants",
+        "on a successful feed the free-buffer value may be unreadable (non-success status of the value read): the keep-alive still succeeded",
         "keep-alive outcomes are success, asyncio.TimeoutError or EzspError raised by the keep-alive command or by the free-buffer read that belongs to the same feed",
     ]
     L = 4 if tier == "quick" else 6
